@@ -128,7 +128,8 @@ def run(rep, tier, seed, prop, assumptions, corr_stream):
     dout = common.run_driver(prop.lower(), "\n".join(feed) + "\n", timeout=240 if tier == "quick" else 3000).splitlines()
 
     stats = {"points": 0, "points_unstable_skipped": 0, "points_compared": 0, "eq_true": 0, "eq_false": 0,
-             "batch_slots": 0, "exceptions": 0, "dump_ok": 0, "deck_ok": 0, "optimize_ok": 0, "skipped_big": 0,
+             "batch_slots": 0, "exceptions": 0, "dump_ok": 0, "deck_ok": 0, "optimize_ok": 0, "walk_spec_ok": 0, "deckmodel_reemitted_equal": 0,
+             "deckmodel_skipped_structural_duplicates": 0, "skipped_big": 0,
              "max_err_ratio": 0.0}
     refs, eqs, mism = {}, [], []
     for ln in dout:
@@ -143,11 +144,15 @@ def run(rep, tier, seed, prop, assumptions, corr_stream):
         elif w[0] == "MISMATCH":
             mism.append(ln)
         elif w[0] == "ok":
-            key = {"dump": "dump_ok", "deck": "deck_ok", "optimize": "optimize_ok"}.get(w[1])
+            key = {"dump": "dump_ok", "deck": "deck_ok", "optimize": "optimize_ok", "walk-spec": "walk_spec_ok",
+                   "deckmodel": "deckmodel_reemitted_equal"}.get(w[1])
             if key:
                 stats[key] += 1
         elif w[0] == "skip":
-            stats["skipped_big"] += 1
+            if len(w) > 1 and w[1] == "dup-nodes":
+                stats["deckmodel_skipped_structural_duplicates"] += 1
+            else:
+                stats["skipped_big"] += 1
         elif w[0] == "exception":
             stats["exceptions"] += 1
     viol_cases = set()
